@@ -99,12 +99,48 @@ def install_static_stubs():
 
 
 _paths_since_gc = 0
+_real_open_file = None
+
+
+def install_wal_stub(on_open=None, on_write=None):
+    """Replace bubus.service.anyio.open_file by an in-memory async file for this path (restored by the next reset())."""
+    global _real_open_file
+    if _real_open_file is None:
+        _real_open_file = service.anyio.open_file
+    lines = []
+
+    class _F:
+        def __init__(self, path):
+            self.path = str(path)
+
+        async def __aenter__(self):
+            return self
+
+        async def __aexit__(self, *a):
+            return False
+
+        async def write(self, s_):
+            if on_write:
+                await on_write(self.path, s_)
+            lines.append((self.path, s_))
+            return len(s_)
+
+    async def _open(path, mode='r', **kw):
+        if on_open:
+            await on_open(str(path), mode)
+        return _F(path)
+    service.anyio.open_file = _open
+    if 'bubus.service.anyio.open_file -> in-memory async file (anyio runs real files in worker threads)' not in STUBS_ACTIVE:
+        STUBS_ACTIVE.append('bubus.service.anyio.open_file -> in-memory async file (anyio runs real files in worker threads)')
+    return lines
 
 
 def reset(order=(), keep_semaphores=False):
     """Fresh process-global bubus state for one path."""
     global _paths_since_gc
     install_static_stubs()
+    if _real_open_file is not None:
+        service.anyio.open_file = _real_open_file
     EventBus.all_instances = OrderedWeakSet(order)
     service._global_eventbus_lock = None
     if not keep_semaphores:
